@@ -10,14 +10,16 @@ import itertools
 LEVEL = "exploration"
 RULE = ("every string over 0-9 of length 1..L (complete product, L=5 quick / 7 thorough) through "
         "encode_to_tbcd(str), encode_to_tbcd(int) and decode_from_tbcd; every integer with 1..K digits "
-        "(K=4 quick / 6 thorough) through MsisdnAVP/StnSrAVP as int and as str. A case is one digit "
+        "(K=4 quick / 6 thorough) through MsisdnAVP/StnSrAVP as int and as str; for every length L+1..20: "
+        "{leading digit} x {fill digit} x all 100 last-two-digit pairs and a single odd digit at every "
+        "position, through all of the above (numbers beyond 2**53 and 2**64). A case is one digit "
         "string; all are distinct by construction; non-trivial = every string (each has its own "
         "expected encoding computed by the reference codec)")
 ASSUMPTIONS = [
     "reference TBCD codec in checks/c18.py (swap nibble pairs; 'f' filler in the high nibble of the "
     "last octet iff the length is odd) is the 3GPP TS 29.002 form",
-    "digit strings longer than the bound behave like shorter ones of the same parity (the codec "
-    "works on independent 2-character windows)",
+    "digit strings outside the enumerated set behave like enumerated ones of the same length (the codec "
+    "works on independent 2-character windows; the long structured strings exercise the int -> text step)",
 ]
 
 
@@ -114,6 +116,22 @@ def _shard(rep, arg):
         rep.add(evaluations=n, distinct=n, strings=n)
         rep.count(f"strings_len_{length}", n)
         rep.sample({"string": prefix + "0" * rest, "tbcd": ref_encode(prefix + "0" * rest)})
+    elif kind == "long":
+        # structured long numbers (up to 20 digits - beyond 2**53 and 2**64): leading digit x fill digit x
+        # every last-two-digits pair, plus one odd digit at every position of an all-ones string
+        from bromelia.avps import MsisdnAVP, StnSrAVP
+        classes = [("MsisdnAVP", MsisdnAVP), ("StnSrAVP", StnSrAVP)]
+        firsts, fills = prefix
+        n = 0
+        strings = [d1 + f * (length - 3) + f"{t:02d}" for d1 in firsts for f in fills for t in range(100)]
+        strings += ["1" * p + "7" + "1" * (length - p - 1) for p in range(length)]
+        for s in strings:
+            check_string(rep, s, utils)
+            check_avp(rep, int(s), classes)
+            n += 1
+        rep.add(evaluations=n, distinct=n, strings=n, avp_numbers=n)
+        rep.count(f"strings_len_{length}", n)
+        rep.sample({"string": strings[0], "tbcd": ref_encode(strings[0])})
     else:
         from bromelia.avps import MsisdnAVP, StnSrAVP
         classes = [("MsisdnAVP", MsisdnAVP), ("StnSrAVP", StnSrAVP)]
@@ -140,6 +158,9 @@ def run(report, tier, seed):
     step = max(1000, top // 32)
     for lo in range(0, top, step):
         shards.append(("avp", lo, min(top, lo + step)))
+    firsts, fills = ("19", "039") if tier == "quick" else ("123456789", "0123456789")
+    for length in range(L + 1, 21):
+        shards.append(("long", length, (firsts, fills)))
     # seed only rotates the order in which shards are handed out
     k = seed % len(shards)
     shards = shards[k:] + shards[:k]
